@@ -80,9 +80,10 @@ def run_harnesses(harnesses, repo='/repo', timeout=1800, extra_args=()):
         cached = {}
         if os.path.exists(cache_file) and os.environ.get('VERIF_NO_CACHE') != '1':
             cached = json.load(open(cache_file))
+        cached = {k: v for k, v in cached.items() if v.get('status') in ('success', 'failed')}
         todo = [h for h in harnesses if h not in cached]
         if todo:
-            scratch = os.path.join(os.environ.get('TMPDIR', '/tmp'), 'grenad-verif-kani')
+            scratch = os.path.join(os.environ.get('TMPDIR', '/tmp'), 'grenad-verif-kani-%s' % hashlib.md5(VERIF.encode()).hexdigest()[:8])
             make_scratch(repo, scratch)
             env = dict(os.environ)
             env['CARGO_NET_OFFLINE'] = 'true'
@@ -103,6 +104,8 @@ def run_harnesses(harnesses, repo='/repo', timeout=1800, extra_args=()):
                     dt = time.time() - t0
                     if 'VERIFICATION:- SUCCESSFUL' in out and rc == 0:
                         status = 'success'
+                    elif 'out of memory' in out or 'CBMC timed out' in out:
+                        status = 'error'
                     elif 'VERIFICATION:- FAILED' in out:
                         status = 'failed'
                     elif rc == -9:
